@@ -1,5 +1,5 @@
 (* C10 - a full prune leaves no waste and reports accurate statistics. Statements only. *)
-From Restic Require Import Base.Prelude Model.S_Prune Proofs.S_Prunep Model.C10m Proofs.C10p.
+From Restic Require Import Base.Prelude Model.S_Prune Proofs.S_Prunep Proofs.S_Prunep2 Model.C10m Proofs.C10p.
 Import SPrune C10m.
 Open Scope N_scope.
 
@@ -52,6 +52,35 @@ Theorem C10_plan_totals : forall o used es listing f r p i k s,
   st_nth s 27 = lenN p /\ st_nth s 28 = lenN r /\ st_nth s 24 = lenN f.
 Proof. exact plan_totals. Qed.
 
+(* Model level, for every index listing, used set, pack listing and options without
+   --repack-cacheable-only: after the planned full prune no unused blob stays indexed - every index
+   entry whose pack is neither removed, repacked nor ignored belongs to a used blob, and every blob kept
+   for repacking is used. *)
+Theorem C10_no_unused_after_model : forall o used es listing f r p i k stats,
+  plan_prune o used es listing = Plan f r p i k stats -> o_cacheable o = false ->
+  (forall e, In e es -> ~ In (e_pack e) (r ++ p ++ i) -> In (e_h e) used) /\
+  (forall h, In h k -> In h used).
+Proof. exact no_unused_after_model. Qed.
+
+(* The counters of packInfoFromIndex are exact for every entry list and used set: per pack
+   usedBlobs + unusedBlobs = number of index entries of the pack, globally used + duplicate + unused =
+   number of index entries (the decrements of pass 3 never underflow), and the unused counter of a pack
+   is at least the number of its entries whose blob is not used at all. *)
+Theorem C10_pack_counters_exact : forall k used es,
+  (forall q, usedB (ip (final k used es) q) + unusedB (ip (final k used es) q) = N.of_nat (cnt_p q es)) /\
+  s_usedB (sts (final k used es)) + s_dupB (sts (final k used es)) + s_unusedB (sts (final k used es))
+    = N.of_nat (length es) /\
+  (forall q, cntf (fun e => inp q e && isun (pass1 used es) e) es <= unusedB (ip (final k used es) q)).
+Proof. exact final_counters_exact. Qed.
+
+(* Blobs.Total reported by the model is the number of index entries. *)
+Theorem C10_blobs_total_exact : forall o used es listing f r p i k s,
+  plan_prune o used es listing = Plan f r p i k s -> st_nth s 3 = lenN es.
+Proof. exact blobs_total_exact. Qed.
+
+Print Assumptions C10_no_unused_after_model.
+Print Assumptions C10_pack_counters_exact.
+Print Assumptions C10_blobs_total_exact.
 Print Assumptions C10_oracle_no_waste.
 Print Assumptions C10_oracle_counts.
 Print Assumptions C10_plan_remove_safe.
